@@ -33,6 +33,20 @@ def energies(arr, kind):
     q = arr[:, 3:]
     if kind == "smooth":
         return 4.0 * np.sin(0.3 * x + 0.1) + 3.0 * np.cos(0.5 * y + 0.2 * z) + 2.5 * q[:, 0] - 1.5 * q[:, 2] * q[:, 1]
+    if kind == "deepwell":   # neighbour differences of several hundred kJ/mol, still below the 500 cap
+        E = 0.3 * np.cos(0.4 * x + 0.7 * y) + 0.2 * q[:, 3]
+        E = E.copy()
+        E[len(E) // 3] -= 430.0
+        E[(2 * len(E)) // 3] += 60.0
+        return E
+    if kind == "two_basin":  # a high barrier on the middle shell: metastable, second eigenvalue within ~1e-9 of zero
+        rr = np.round(np.linalg.norm(arr[:, :3], axis=1), 6)
+        shells = np.unique(rr)
+        # generic (symmetry-breaking) background as in "smooth", plus the barrier; without a middle shell: no such landscape
+        E = 2.0 * np.sin(0.3 * x + 0.1) + 1.5 * np.cos(0.5 * y + 0.2 * z) + 1.2 * q[:, 0] - 0.7 * q[:, 2] * q[:, 1]
+        if len(shells) < 3:
+            return None
+        return E + np.where(rr == shells[len(shells) // 2], 74.0, 0.0)
     if kind == "int":        # whole-number energies handed over with an integer dtype
         return np.round(4.0 * np.sin(0.3 * x + 0.1) + 3.0 * np.cos(0.5 * y + 0.2 * z) + 2.5 * q[:, 0]).astype(np.int64)
     if kind == "offset":     # absolute (quantum-chemistry style) energies: small differences on a huge common offset
@@ -72,6 +86,8 @@ def run_case(case):
         Ad = np.asarray(A.toarray()) != 0
         for ek in case["energies"]:
             E = energies(arr, ek)
+            if E is None:
+                continue
             for T in case["Ts"]:
                 tag = f"|E={ek}|T={T}"
                 try:
@@ -94,7 +110,9 @@ def run_case(case):
                 pi = np.exp(logpi - logpi.max())
                 F = pi[:, None] * Qd
                 scale = np.maximum(np.abs(F), np.abs(F.T))
-                bad = (np.abs(F - F.T) > 1e-9 * np.maximum(scale, 1e-300)) & off
+                Ef = np.asarray(E, dtype=float)
+                below_cap = np.abs(Ef[:, None] - Ef[None, :]) < 500.0       # the statement excludes pairs beyond the cap
+                bad = (np.abs(F - F.T) > 1e-9 * np.maximum(scale, 1e-300)) & off & below_cap
                 if bad.any() and not open_cells:
                     i, j = np.argwhere(bad)[0].tolist()
                     rel = float(np.abs(F - F.T)[i, j] / scale[i, j])
@@ -106,17 +124,20 @@ def run_case(case):
                                    "matrix is not defined", case))
                     continue
                 # spectral decomposition (one temperature)
-                if not case.get("decompose") or n < 15 or T != case["Ts"][0] or ek.startswith("offset") or ek == "int":
+                if not case.get("decompose") or n < 15 or T != case["Ts"][0] or ek.startswith("offset") or ek in ("int", "deepwell"):
                     continue
                 dense_ev = np.linalg.eigvals(Qd)
                 if np.abs(dense_ev.imag).max() > 1e-8 * np.abs(dense_ev).max():
                     continue
                 dense_sorted = np.sort(dense_ev.real)[::-1]
-                if dense_sorted[0] - dense_sorted[1] < 1e-8 * np.abs(dense_sorted).max():
-                    continue   # zero eigenvalue not simple: grid not connected, outside the statement
                 normQ = np.abs(dense_sorted).max()
+                if dense_sorted[0] - dense_sorted[1] < 1e-13 * normQ:
+                    continue   # zero eigenvalue not simple: grid not connected, outside the statement
+                # metastable case: zero is simple but nearly degenerate -> only order and values are asserted
+                near_degenerate = dense_sorted[0] - dense_sorted[1] < 1e-7 * normQ
                 mid = 0.5 * (dense_sorted[2] + dense_sorted[3])     # a negative shift strictly inside the spectrum
-                for which, sigma, tol in SETTINGS + [("LM", "mid34", 1e-10)]:
+                for which, sigma, tol in (SETTINGS + [("LM", "mid34", 1e-10)] if ek != "two_basin" else
+                                          [("LR", None, 1e-10), ("LM", 0.01, 1e-10), ("SR", 0.01, 1e-10)]):
                     if sigma == "mid34":
                         if min(abs(mid - dense_sorted)) < 1e-3 * abs(mid):
                             continue                                 # too close to an eigenvalue: outside the statement
@@ -164,7 +185,7 @@ def run_case(case):
                             if np.iscomplexobj(ev) or np.iscomplexobj(evec):
                                 vs.append(viol(dkey + "|complex", "eigenvalues/eigenvectors are not real", case))
                                 continue
-                            if np.any(np.diff(ev) > 1e-12 * normQ):
+                            if np.any(np.diff(ev) > 0):
                                 vs.append(viol(dkey + "|order", "eigenvalues are not sorted in descending order", case,
                                                observed=ev.tolist()))
                             if np.abs(ev - expected_k).max() > etol:
@@ -181,8 +202,8 @@ def run_case(case):
                                 continue
                             if abs(ev[0]) > etol:
                                 vs.append(viol(dkey + "|zero", "largest eigenvalue is not zero", case, observed=float(ev[0])))
-                            if tol > 1e-8:
-                                continue      # eigenvector accuracy is only asserted for the tight tolerance
+                            if tol > 1e-8 or near_degenerate:
+                                continue      # eigenvector accuracy is only asserted for the tight tolerance / clear gap
                             v = evec[:, 0]
                             v = v / v[np.argmax(np.abs(v))]
                             p = pi / pi[np.argmax(np.abs(pi))]
@@ -213,7 +234,8 @@ def cases(tier):
                         i += 1
                         dec = (tier == "thorough") or (i % 4 == 0)
                         out.append({"b": b, "o": o, "t": t, "cartesian": cart, "f": f,
-                                    "energies": ["smooth", "well", "offset", "offset_pos", "int"], "Ts": [273.15, 310.0], "decompose": dec,
+                                    "energies": ["smooth", "well", "two_basin", "offset", "offset_pos", "int", "deepwell"], "Ts": [273.15, 310.0, 180.0],
+                                    "decompose": dec,
                                     "ks": [6, 12], "seeds": [0, 1, 2]})
     return out
 
